@@ -10,6 +10,7 @@
     s preds <n>                          -> set
 -/
 import OrasModel.Model.Stores
+import OrasModel.Model.PushRace
 import OrasModel.Gen.Facts
 import OrasModel.Driver.Util
 namespace Oras.Driver.S
@@ -168,7 +169,17 @@ def step (s : St) (toks : List String) : Option (St × String × String) :=
       -- commits with one atomic load-or-store and the file store serialises per name; the
       -- OCI layout commits with rename(2), which replaces an existing blob silently.
       let kind ← kv rest "kind"
-      some (s, (if kind == "oci" then "accepted=2" else "accepted=1"), "accepted=1")
+      -- model: `Model/PushRace.lean` on the schedule the harness forces (the second push runs
+      -- to completion while the first is still reading), with the commit primitive the
+      -- regenerated call lists show
+      let ociBlind := ((Gen.ociCalls.lookup "Storage.Push").getD []).contains "os.Rename"
+      let memTAS := (Gen.casCalls.lookup "Memory.Push").getD [] |>.contains "m.content.LoadOrStore"
+      let cm : PushRace.Commit :=
+        if kind == "oci" then (if ociBlind then .blind else .testAndSet)
+        else if kind == "memory" then (if memTAS then .testAndSet else .blind)
+        else .testAndSet     -- the file store serialises pushes per name
+      let fin := PushRace.run cm (PushRace.init (fun _ => true)) [0, 1, 1, 1, 0, 0]
+      some (s, s!"accepted={PushRace.accepted fin 2}", "accepted=1")
   | _ => none
 
 end Oras.Driver.S
